@@ -194,8 +194,11 @@ impl<'a, P, const SEED_SIZE: usize> ParameterizedDecode<(&'a Poplar1<P, SEED_SIZ
     ) -> Result<Self, CodecError> {
         let idpf_key = Seed::decode(bytes)?;
         let corr_seed = Seed::decode(bytes)?;
-        let mut corr_inner = Vec::with_capacity(poplar1.bits - 1);
-        for _ in 0..poplar1.bits - 1 {
+        let inner_levels = poplar1.bits.checked_sub(1).ok_or_else(|| {
+            CodecError::Other("Poplar1 requires a bit length of at least 1".into())
+        })?;
+        let mut corr_inner = Vec::with_capacity(inner_levels);
+        for _ in 0..inner_levels {
             corr_inner.push([Field64::decode(bytes)?, Field64::decode(bytes)?]);
         }
         let corr_leaf = [Field255::decode(bytes)?, Field255::decode(bytes)?];
@@ -656,7 +659,7 @@ impl<'a, P: Xof<SEED_SIZE>, const SEED_SIZE: usize>
         (poplar1, agg_param): &(&'a Poplar1<P, SEED_SIZE>, &'a Poplar1AggregationParam),
         bytes: &mut Cursor<&[u8]>,
     ) -> Result<Self, CodecError> {
-        if agg_param.level() == poplar1.bits - 1 {
+        if agg_param.level() + 1 == poplar1.bits {
             decode_fieldvec(agg_param.prefixes().len(), bytes).map(Poplar1FieldVec::Leaf)
         } else {
             decode_fieldvec(agg_param.prefixes().len(), bytes).map(Poplar1FieldVec::Inner)
